@@ -290,15 +290,20 @@ void C18Exec::prepare(C18Outcome &out) {
             eo.shared = s.shared;
             eo.sealInputs = true;
             ctx.begin(t, ++g_opIdCounter, fillSeedOf(cs.caseSeed, t, (int)i), op.fault);
-            heapBind(&ctx);
-            Ambient amb0 = ambientGet(true);
-            schedSoloBegin();
-            schedSetOpBudget(50000000);
-            s.expected = execOp(SIM, op, eo);
-            s.soloSteps = schedSoloEnd();
-            s.nrSteps = schedSoloPreferredSteps();
-            heapBind(nullptr);
-            Ambient amb1 = ambientGet(true);
+            Ambient amb0, amb1;
+            // "alone" = as the first call of a thread without history (fresh thread-local storage, errno 0)
+            schedRunOnFreshThread([&]() {
+                heapBind(&ctx);
+                amb0 = ambientGet(true);
+                schedSoloBegin();
+                schedSetOpBudget(50000000);
+                s.expected = execOp(SIM, op, eo);
+                s.soloSteps = schedSoloEnd();
+                s.nrSteps = schedSoloPreferredSteps();
+                heapBind(nullptr);
+                amb1 = ambientGet(true);
+                ambientRestoreThread(ambientDefault());
+            });
             if (!(amb0 == amb1) && s.expected.status == CALL_RETURNED) {
                 JP v = mkViolation(
                     "I6-ambient-state", op, t, (int)i,
